@@ -15,7 +15,7 @@ network namespace so that nothing else can hold port 7472, with the 45 fix
 commits up to bd5668f: **5096 passed, 2 skipped, 361 deselected, 2 xfailed** -
 the same 5096 as on the pinned commit. The six later commits touch only
 `bqskit/runtime/worker.py` (cancel paths). With them: `tests/runtime` +
-`tests/compiler/test_compiler.py` 88 passed (on e8c880d, quiet machine; the
+`tests/compiler/test_compiler.py` 88 passed (on e8c880d and again on the final tree cecb626, quiet machine; the
 same 88 passed with each of the ten runtime seeded changes, which is what
 "passes the existing tests" means for those); `tests/compiler`,
 `tests/passes/control`, `tests/passes/partitioning`, `tests/passes/util` 797
